@@ -165,7 +165,7 @@ def r3(ctx, R):
     api = ctx.repo.module("modelx.core.api")
     ge = api.funcs["get_error"]
     R.inst("get_error returns executor.excinfo[1]")
-    rets = [norm(r_.value) for r_ in q.returns(ge)]
+    rets = [q.anorm(ge, r_.value) if r_.value is not None else "None" for r_ in q.returns(ge)]
     if "_system.executor.excinfo[1]" not in rets or any(r_ not in ("_system.executor.excinfo[1]", "None") for r_ in rets):
         R.bad(ge, ge.node, "get_error does not return the original exception of the last run", stmt="return")
     for nm in ("get_traceback", "trace_locals"):
